@@ -64,7 +64,8 @@ Inductive op :=
 | OFinish (f : uid) (d : bool)
 | OEndScope (f : uid) (name : N)
 | OEvent (k : akind) (a : uid)
-| OStartLink (x src : uid) (a : Z).        (* _start_flow *)
+| OStartLink (x src : uid) (a : Z)         (* _start_flow *)
+| OCleanup (aged : list uid).              (* _clean_up_state; instances older than 5 s *)
 
 (* exceptions of the implementation: KeyError, ValueError (list.remove), ColangRuntimeError (scope) *)
 Inductive exn := XKey | XValue | XScope.
@@ -89,6 +90,7 @@ Definition run_op (s : st) (o : op) : res st :=
   | OEndScope f n => end_scope scope_release_shared fuel s f n
   | OEvent k a => Ok (action_event k a s)
   | OStartLink x src a => start_link s x src a
+  | OCleanup aged => cleanup cleanup_keeps_needed_parents (fun u => memb u aged) s
   end.
 
 (* the pre-snapshot has out = []; the implementation side lists what was emitted during the call *)
